@@ -7,6 +7,8 @@ import (
 	"path/filepath"
 	"strings"
 
+	"github.com/alicebob/sqlittle"
+
 	"verif/crash"
 	"verif/ops"
 	"verif/sim"
@@ -376,7 +378,22 @@ func runC09(c *sim.Ctx) {
 			warm := (k+cut)%6 == 0
 			base := crash.Files{DB: tr.BaseDB, Journal: tr.BaseJrnl, HasJ: tr.HasJrnl}
 			lp := writePair(llDir, base)
-			ld, err := sqlittleOpen(lp)
+			// one handle in four is opened by a relative name, and the process then changes
+			// its working directory: the journal still lives next to the database file
+			relative := (k+cut)%24 == 3 || (k+cut)%24 == 12
+			var ld *sqlittle.DB
+			var err error
+			if relative {
+				if wd, werr := os.Getwd(); werr == nil && os.Chdir(llDir) == nil {
+					ld, err = sqlittleOpen("db")
+					os.Chdir(wd)
+					c.Probe("relative-open-then-chdir")
+				} else {
+					ld, err = sqlittleOpen(lp)
+				}
+			} else {
+				ld, err = sqlittleOpen(lp)
+			}
 			if err == nil {
 				if warm {
 					ops.Run(ld, ops.Op{Kind: "select", Table: "t", Cols: []string{"id", "v", "n"}}, nil)
